@@ -142,6 +142,7 @@ func (t *sseClientTransport) start(ctx context.Context) error {
 
 	// Create a new context with cancellation for the SSE stream.
 	sseCtx, cancel := context.WithCancel(icontext.WithoutCancel(ctx))
+	verifYield("ssecli.start.beforeregister")
 	t.sseConn.mutex.Lock()
 	t.sseConn.ctx = sseCtx
 	t.sseConn.cancel = cancel
